@@ -11,6 +11,7 @@ import EaselModel.Buffer.MemExact
 import EaselModel.Buffer.Stable
 import EaselModel.Buffer.Pinned
 import EaselModel.Buffer.Beyond
+import EaselModel.Buffer.HistoryX
 import EaselModel.Buffer.MemRealLemmas  -- round4-mem
 import EaselModel.Buffer.MemRealStart  -- round 6
 import EaselModel.Buffer.OpenFileLemmas -- round4-open
@@ -466,6 +467,35 @@ theorem setoffset_beyond_end_deterministic (P o : Nat) (a : AState) (s : Sess) (
 example : ∀ m ∈ [Mode.stream, Mode.cmdpipe, Mode.file], ∀ ps ∈ [1, 4],
     (obsRun { b := openBuf m ps [97, 98, 10, 99, 100, 10, 101, 102, 10, 103] } [.read 1, .setAnchor 1, .setOffset 40, .getLine, .getOffset]).map
       (fun o => (o.st, o.bytes, o.off)) = [(.ok, [97], 1), (.ok, [], 1), (.einval, [], 10), (.eof, [], 10), (.ok, [], 10)] := by decide
+
+/-- **`history_spec` beyond the API contract** (streams and pipes read in pages): for every input, every page size, and every
+    history in the LARGER class `ValidHistX` — the contract `Valid`, or a `SetOffset` beyond the end of the input ahead of the
+    cursor, any number of times, anywhere in the history — the (status, bytes, offset) sequence of the model equals the
+    extended deterministic specification `specRunX` (such a call: `eslEINVAL`, cursor at the end of the input, anchors kept). -/
+theorem history_spec_x (mode : Mode) (hm : mode = .stream ∨ mode = .cmdpipe) (ps : Nat) (src : Bytes) (hps : 0 < ps) (P : Nat) (hP : P ≤ ps)
+    (hopen : (openBuf mode ps src).mode = mode ∧ (openBuf mode ps src).hasfp = true)
+    (ops : List Op) (hv : ValidHistX P (AState.init src) ops) :
+    obsRun { b := openBuf mode ps src } ops = specRunX (AState.init src) ops :=
+  history_refines_x P mode hm ops _ _ (open_R mode ps src hps P hP) hopen hv
+
+/-- … hence page-size independence on streams for that larger class of histories -/
+theorem history_x_pagesize_independent (src : Bytes) (ps₁ ps₂ P : Nat) (h₁ : 0 < ps₁) (h₂ : 0 < ps₂) (hP₁ : P ≤ ps₁) (hP₂ : P ≤ ps₂)
+    (ops : List Op) (hv : ValidHistX P (AState.init src) ops) :
+    obsRun { b := openBuf .stream ps₁ src } ops = obsRun { b := openBuf .stream ps₂ src } ops := by
+  rw [history_spec_x .stream (Or.inl rfl) ps₁ src h₁ P hP₁ ⟨rfl, rfl⟩ ops hv,
+      history_spec_x .stream (Or.inl rfl) ps₂ src h₂ P hP₂ ⟨rfl, rfl⟩ ops hv]
+
+/-- the mode and the stream handle of a buffer never change after it is opened (any operation, any arguments, any state) -/
+theorem mode_fixed (s : Sess) (op : Op) : (s.step op).2.b.mode = s.b.mode ∧ (s.step op).2.b.hasfp = s.b.hasfp :=
+  step_mode s op s.b.mode s.b.hasfp ⟨rfl, rfl⟩
+
+-- non-vacuity: a history of the larger class that is NOT in the contract, and its extended specification
+example : ValidHistX 1 (AState.init [97, 98, 10, 99]) [.read 1, .setOffset 40, .getLine, .setOffset 41, .getOffset] ∧
+    ¬ ValidHist 1 (AState.init [97, 98, 10, 99]) [.read 1, .setOffset 40, .getLine, .setOffset 41, .getOffset] := by
+  refine ⟨⟨Or.inr trivial, Or.inl (by decide), Or.inr trivial, Or.inl (by decide), Or.inr trivial, trivial⟩, ?_⟩
+  rintro ⟨_, ⟨h | ⟨h, _⟩, _⟩, _⟩ <;> revert h <;> decide
+example : (specRunX (AState.init [97, 98, 10, 99]) [.read 1, .setOffset 40, .getLine, .setOffset 41, .getOffset]).map (fun o => (o.st, o.bytes, o.off))
+    = [(.ok, [97], 1), (.einval, [], 4), (.eof, [], 4), (.einval, [], 4), (.ok, [], 4)] := by decide
 
 /-! ## Stable anchors, exactly (round 3) -/
 
